@@ -71,9 +71,14 @@ def run(out, prop, tier, seed, only_slices=None):
     for label, dom, keep, cap in SLICES[tier]:
         if only_slices and label not in only_slices:
             continue
-        cfg = clitools.DUMP_CFG.format(nsea=2, fmt='json', dom=dom, keep=keep) + 'INIT DInit\nNEXT DNext\nINVARIANT DTypeOK\n' + \
-            ''.join('INVARIANT P_%s\n' % f for f in formulas) + 'INVARIANT ExportWorld\n'
-        res = tlc.run('MC_MibDump', 'g.cfg', files={'g.cfg': cfg}, timeout=6000, deadlock=True)
+        if cap and tier == 'quick':
+            # sampled slice: TLC only enumerates the worlds; the sampled ones are run - with the formulas as invariants - by RealWorldTrace
+            cfg = clitools.DUMP_CFG.format(nsea=2, fmt='json', dom=dom, keep=keep) + 'INIT DInit\nNEXT NoStep\nINVARIANT ExportWorldInit\n'
+            res = tlc.run('MC_MibDump', 'g.cfg', files={'g.cfg': cfg}, timeout=6000)
+        else:
+            cfg = clitools.DUMP_CFG.format(nsea=2, fmt='json', dom=dom, keep=keep) + 'INIT DInit\nNEXT DNext\nINVARIANT DTypeOK\n' + \
+                ''.join('INVARIANT P_%s\n' % f for f in formulas) + 'INVARIANT ExportWorld\n'
+            res = tlc.run('MC_MibDump', 'g.cfg', files={'g.cfg': cfg}, timeout=6000, deadlock=True)
         out.add_tlc(res, 'MibDump(MibCompile formulas)/' + label)
         worlds = [e['w'] for e in res.exports if e['w']['usage'] == 'none']
         if cap and len(worlds) > cap:
@@ -97,8 +102,9 @@ def run(out, prop, tier, seed, only_slices=None):
         wpath = os.path.join(base, 'wtraces-%s.json' % label)
         with open(wpath, 'w') as fh:
             json.dump([{'id': t['id'], 'w': raw[t['id']][0], 'log': t['log'], 'proc': t['proc'], 'ended': t['ended']} for t in traces], fh)
-        wcfg = clitools.DUMP_CFG.format(nsea=2, fmt='json', dom='Dom_usage', keep='KeepAll') + 'INIT TInit\nNEXT TNext\nINVARIANT Report\n'
-        wres = tlc.run('RealWorldTrace', 'w.cfg', files={'w.cfg': wcfg}, env={'TRACE_FILE': wpath}, workers=8, timeout=6000)
+        wcfg = clitools.DUMP_CFG.format(nsea=2, fmt='json', dom='Dom_usage', keep='KeepAll') + 'INIT TInit\nNEXT TNext\nINVARIANT Report\nINVARIANT DTypeOK\n' + \
+            ''.join('INVARIANT P_%s\n' % f for f in formulas)
+        wres = tlc.run('RealWorldTrace', 'w.cfg', files={'w.cfg': wcfg}, env={'TRACE_FILE': wpath}, workers=8, timeout=6000, deadlock=True)
         out.add_tlc(wres, 'RealWorldTrace/' + label)
         os.unlink(wpath)
         wverd = {v['id']: v for v in wres.exports}
